@@ -173,7 +173,7 @@ def make_jobs(ctx):
             jobs.append(Job("G.%s.%s" % (tag, h[2:]), hp, entry=h, includes=[d, os.path.join(ctx.repo, "w2c2")],
                             flags=["--unwind", "10", "--unwinding-assertions"], funcs=["generated:%s %s" % (modname, fn)],
                             replay=lambda c, j, p, v: native_replay_generic(c, j, p, v),
-                            info=dict(layer="G", table=("defined" if defined else "imported"), w2c2_options=" ".join(opts), module_hex=wasm_bytes.hex()), **extra))
+                            info=dict(layer="G", generated_c=os.path.join(d, modname + ".c"), table=("defined" if defined else "imported"), w2c2_options=" ".join(opts), module_hex=wasm_bytes.hex()), **extra))
     from ..eexpr import expr_jobs
     jobs += expr_jobs(ctx, ["call", "call_indirect"])
     # which C symbol an import is bound to: the mangling must keep different (module, name) pairs apart
